@@ -138,14 +138,48 @@ Proof.
   destruct v; reflexivity.
 Qed.
 
-Theorem tie_acquire_entry s t : phase_of s t = Idle ->
-  step s (AcqBegin t) = lift s t KAcquire (exec sem_acquire_entry t (loc_entry None None) log0 (core s)).
+(* acquire() past a live cancellation check (called from a live scope, or continuing after a check that returned):
+   the model's atomic test-and-decrement / enqueue is the interpretation of the regenerated entry segment *)
+Theorem tie_acq_body s t :
+  acq_body s t = lift s t KAcquire (exec sem_acquire_entry t (loc_entry None None) log0 (core s)).
 Proof.
-  intros Hp. cbn [step]. rewrite Hp. cbn [is_idle negb].
-  unfold sem_acquire_entry. cbn.
+  unfold acq_body, sem_acquire_entry. cbn.
   destruct s as [fa mx v ws fu nf ph mc i0 h il ex dr q]; cbn in *.
   destruct v as [|v]; cbn; [reflexivity|].
   destruct ws as [|w r]; cbn; [destruct fa; reflexivity | reflexivity].
+Qed.
+
+Theorem tie_acquire_entry s t : phase_of s t = Idle ->
+  step s (AcqBegin t) = lift s t KAcquire (exec sem_acquire_entry t (loc_entry None None) log0 (core s)).
+Proof.
+  intros Hp. cbn [step]. rewrite Hp. cbn [is_idle negb]. apply tie_acq_body.
+Qed.
+
+(* F53: the cancellation check is the FIRST statement of acquire(): the regenerated entry segment is `SCkIf; body`,
+   and with a live check the whole segment is its body - so the continuation after a check that yielded and then
+   returned (CkPass) is the interpretation of this same segment, and there is no await between the test
+   `value > 0 and not waiters` and the decrement (both are inside the one segment `body`) *)
+Theorem tie_acquire_check_first :
+  exists body, sem_acquire_entry = SSeq SCkIf body /\
+    forall t l g k, l_fresh l = true -> l_canc l = false ->
+      exec sem_acquire_entry t l g k = exec body t l g k.
+Proof.
+  eexists. split; [reflexivity|]. intros t l g k Hf Hc.
+  destruct l as [lf la lb le lv fr cn]. cbn in Hf, Hc. subst. reflexivity.
+Qed.
+
+Theorem tie_acquire_entry_cancelled s t : phase_of s t = Idle ->
+  step s (AcqBeginC t) = lift_ck s t (exec sem_acquire_entry t (loc_entry_cancelled None) log0 (core s)).
+Proof.
+  intros Hp. cbn [step]. rewrite Hp. cbn [is_idle negb].
+  unfold sem_acquire_entry. cbn. destruct s; reflexivity.
+Qed.
+
+Theorem tie_acquire_check_pass s t : phase_of s t = CkYield -> mustc s t = false ->
+  step s (CkPass t) =
+  lift (leave s t) t KAcquire (exec sem_acquire_entry t (loc_entry None None) log0 (core (leave s t))).
+Proof.
+  intros Hp Hm. cbn [step]. rewrite Hp, Hm. apply tie_acq_body.
 Qed.
 
 Theorem tie_acquire_yield_resumed s t : phase_of s t = FastYield -> mustc s t = false ->
@@ -211,36 +245,17 @@ Theorem tie_getters s :
   map (fun x => eval_expr x (core s)) sem_statistics_args = [VNat (length (waiters s))].
 Proof. repeat split. Qed.
 
-(* ---- C08 clause (a) on the regenerated code: acquire() called from an effectively cancelled scope with a permit
-   free and nobody queued raises the cancellation without taking the permit: value, queue, futures untouched, nothing
-   enqueued, nobody woken.  (When it must wait the source has no cancellation check before it enqueues: the task waits
-   on its future and the cancellation is delivered to the waiting task, C03.) ---- *)
-Theorem cancelled_entry_noeffect s t : value s > 0 -> waiters s = [] ->
+(* ---- C08 clause (a) on the regenerated code: acquire() called from an effectively cancelled scope does not get
+   past the check, in EVERY state (permit free or not, queue empty or not - since the F53 fix the check is the first
+   statement, the contended path has it too): value, queue, futures untouched, nothing enqueued, nobody woken. ---- *)
+Theorem cancelled_entry_noeffect s t :
   exists l, exec sem_acquire_entry t (loc_entry_cancelled None) log0 (core s) = (l, log0, core s, OCancelled).
-Proof.
-  intros Hv Hw. unfold sem_acquire_entry. cbn. rewrite Hw.
-  destruct (value s) as [|v]; [inversion Hv|]. cbn. eexists. reflexivity.
-Qed.
-
-Theorem cancelled_entry_contended_as_live s t : value s = 0 \/ waiters s <> [] ->
-  snd (exec sem_acquire_entry t (loc_entry_cancelled None) log0 (core s)) =
-    snd (exec sem_acquire_entry t (loc_entry None None) log0 (core s)) /\
-  snd (fst (exec sem_acquire_entry t (loc_entry_cancelled None) log0 (core s))) =
-    snd (fst (exec sem_acquire_entry t (loc_entry None None) log0 (core s))) /\
-  snd (fst (fst (exec sem_acquire_entry t (loc_entry_cancelled None) log0 (core s)))) =
-    snd (fst (fst (exec sem_acquire_entry t (loc_entry None None) log0 (core s)))).
-Proof.
-  intros H. unfold sem_acquire_entry.
-  destruct s as [fa mx v ws fu nf ph mc i0 h il ex dr q]; cbn in *.
-  destruct v as [|v]; cbn; [repeat split|].
-  destruct ws as [|w r]; cbn; [|repeat split].
-  destruct H as [H | H]; congruence.
-Qed.
+Proof. unfold sem_acquire_entry. cbn. eexists. reflexivity. Qed.
 
 (* ---- the machine built from the generated segments is the model ---- *)
 Theorem gstep_eq_step s o : gstep sem_prog s o = step s o.
 Proof.
-  destruct o as [t|t|t|t|t]; cbn [gstep sem_prog p_acquire_entry p_acquire_nowait p_release
+  destruct o as [t|t|t|t|t|t|t]; cbn [gstep sem_prog p_acquire_entry p_acquire_nowait p_release
     p_acquire_yield_resumed p_acquire_yield_cancelled p_acquire_wait_resumed p_acquire_wait_cancelled].
   - destruct (phase_of s t) eqn:Hp; cbn [is_idle negb]; [|cbn [step]; rewrite Hp; reflexivity..].
     symmetry. now apply tie_acquire_entry.
@@ -248,7 +263,7 @@ Proof.
     symmetry. now apply tie_acquire_nowait.
   - destruct (phase_of s t) eqn:Hp; cbn [is_idle negb]; [|cbn [step]; rewrite Hp; reflexivity..].
     symmetry. now apply tie_release.
-  - destruct (phase_of s t) as [| |f] eqn:Hp.
+  - destruct (phase_of s t) as [| |f|] eqn:Hp.
     + cbn [step]. rewrite Hp. reflexivity.
     + destruct (mustc s t) eqn:Hm; symmetry.
       * now apply tie_acquire_yield_cancelled.
@@ -259,7 +274,14 @@ Proof.
         -- apply tie_acquire_wait_cancelled with (f := f); auto.
         -- now apply tie_acquire_wait_resumed.
       * symmetry. apply tie_acquire_wait_cancelled with (f := f); auto.
+    + reflexivity.
   - reflexivity.
+  - destruct (phase_of s t) eqn:Hp; cbn [is_idle negb]; [|cbn [step]; rewrite Hp; reflexivity..].
+    symmetry. now apply tie_acquire_entry_cancelled.
+  - destruct (phase_of s t) as [| |f|] eqn:Hp; try (cbn [step]; rewrite Hp; reflexivity).
+    destruct (mustc s t) eqn:Hm.
+    + cbn [step]. rewrite Hp, Hm. reflexivity.
+    + symmetry. now apply tie_acquire_check_pass.
 Qed.
 
 (* ---- what lift does, spelled out: the code-visible fields, the result, and every ghost field ---- *)
@@ -308,7 +330,7 @@ Proof. intros fa iv mx ops Hm. exact (sem_conservation fa iv mx _ Hm (greach_run
 
 Theorem gen_grant_only_if_free : forall fa iv mx ops t o, max_ok iv mx ->
   let s := final (gstep sem_prog) (init fa iv mx) ops in
-  o = AcqBegin t \/ o = AcqNowait t ->
+  o = AcqBegin t \/ o = AcqNowait t \/ o = CkPass t ->
   length (held (fst (gstep sem_prog s o))) + length (infl (fst (gstep sem_prog s o))) >
     length (held s) + length (infl s) ->
   value s = S (value (fst (gstep sem_prog s o))) /\ waiters s = [].
